@@ -714,6 +714,24 @@ def gen_range_cases(factories, pfx):
     return cases
 
 
+def gen_refine_k_cases():
+    """DETERMINISTIC, every run: refine*0: and refine*k:, k >= 2 (the paths through Rule::clone()), for a few small
+    rules of every shape, through create and create_throw, at double and at Q: an empty or un-normalised rule fails
+    the point-count and weight-sum judgement of the oracle and the comparison with the model"""
+    pick = {"s1": ["gauss-legendre:2", "barycentre", "trapezoidal"], "s2": ["dunavant:2", "barycentre", "hammer-stroud-degree-2"],
+            "s3": ["shunn-ham:2", "barycentre", "lauffer-degree-2"], "h1": ["gauss-legendre:3", "trapezoidal", "simpson"],
+            "h2": ["gauss-legendre:2", "barycentre", "newton-cotes-open:2"], "h3": ["gauss-legendre:2", "trapezoidal", "midpoint"]}
+    cases = []
+    for shape in SHAPES:
+        for nm in pick[shape]:
+            for head in ("refine*0:", "refine*2:", "refine*3:", "refine*00:", "Refine * 2 :"):
+                if DIM[shape] == 3 and head == "refine*3:" and nm != "barycentre" and nm != "midpoint":
+                    continue
+                for op in ("rule", "rulet", "ruleq"):
+                    cases.append("%s 0 %s %s" % (op, shape, enhex(head + nm)))
+    return cases
+
+
 def gen_exhaustive_cases(pfx, max_head_points=2000000, max_rule_points=2500):
     """EXHAUSTIVE (thorough tier): every driver x every admissible point count x every alias x auto-degree:0..max of
     every shape, un-refined and behind refine: / refine*2: / refine*3: (and refine*0:), with the tensor:/scalar:
@@ -860,7 +878,7 @@ def main(argv):
             "names_plain_config": len(EXH[0][0]), "names_prefix_config": len(EXH[1][0]),
             "skipped_over_2e6_points": EXH[0][1] + EXH[1][1]}
         streams = [
-            vlib.Stream("tables", CORPUS["tables"] + gen_table_cases(0, 1000 if quick else 8000), [bins["p0"]], drv, **common),
+            vlib.Stream("tables", CORPUS["tables"] + gen_refine_k_cases() + gen_table_cases(0, 1000 if quick else 8000), [bins["p0"]], drv, **common),
             vlib.Stream("names0", CORPUS["names0"] + gen_name_cases(rng, 0, n_names), [bins["p0"]], drv, **common),
             vlib.Stream("names1", CORPUS["names1"] + gen_name_cases(rng, 1, n_names // 2) + gen_table_cases(1, 30), [bins["p1"]], drv, **common),
             vlib.Stream("exactq", gen_exactq_cases(rng, 120 if quick else 2500, 700 if quick else 3000), [bins["p0"]], drv, **common),
